@@ -5,7 +5,7 @@
 P="$1"; SRC="$2"; shift 2; CHECKS="${*:-$P}"
 WT=$(mktemp -d /tmp/seedtest_XXXXXX)
 cp -r /repo/tempest /repo/tests /repo/pyproject.toml "$WT"/ 2>/dev/null
-OUT=/verif/seeded/$P; mkdir -p "$OUT"
+OUT=/verif/seeded/$P${SEED_TAG:-}; mkdir -p "$OUT"
 cp "$SRC/patch_$P.diff" "$OUT/patch.diff"; cp "$SRC/demo_$P.py" "$OUT/demo.py"; cp "$SRC/meta_$P.json" "$OUT/meta_agent.json"
 cd "$WT" || exit 2
 echo "== demo on the UNCHANGED copy"; PYTHONPATH="$WT" /venv/bin/python "$OUT/demo.py" > "$OUT/demo_clean.log" 2>&1; RC_CLEAN=$?; echo "rc=$RC_CLEAN"
